@@ -185,12 +185,12 @@ def qp_convex_spec(draw, max_n=6, max_m=3):
 
 
 @st.composite
-def start_point(draw, spec, allow_none=True):
+def start_point(draw, spec, allow_none=True, kinds=None):
     """In-bounds x0 (clip of a drawn vector), y0 in {None, 0, random * scale}."""
     n, m = spec["n"], spec["m"]
     lb, ub = np.array(spec["lb"]), np.array(spec["ub"])
     shift = np.array(spec.get("shift", [0.0] * n))
-    kind = draw(st.sampled_from(["vec", "vec", "vec", "none", "scalar", "corner"] if allow_none else ["vec"]))
+    kind = draw(st.sampled_from(kinds or (["vec", "vec", "vec", "none", "scalar", "corner"] if allow_none else ["vec"])))
     if kind == "corner":
         # every bounded component starts exactly on one of its bounds
         raw = np.array(dvec(draw, n)) + shift
@@ -567,6 +567,24 @@ def any_spec(draw, families=("nlp", "qp", "degenerate"), max_n=5, max_m=3, magni
         s = draw(unbounded_spec(max_n=min(max_n, 4)))
     elif fam == "patternvar":
         s = draw(patternvar_spec(max_n=min(max_n, 4)))
+    elif fam == "convexbox":
+        # convex (possibly only semidefinite) coupled QP on a box, no rows: from a corner start several variables are
+        # pinned at once and some of them must be released later because a coupled variable moves
+        n = draw(st.integers(2, min(max(max_n, 2), 4)))  # noqa
+        if draw(st.integers(0, 3)) == 0:
+            Q = np.zeros((n, n))  # an LP on a box: every variable ends on a bound, often all of them in one step
+        else:
+            B = np.array([[draw(st.integers(-2, 2)) / 2.0 for _ in range(n)] for _ in range(n)])
+            Q = B.T @ B + np.diag([draw(st.sampled_from([0.0, 0.5, 1.0])) for _ in range(n)])
+        lb, ub = [], []
+        for _ in range(n):
+            k = draw(st.sampled_from(["free", "lower", "upper", "boxed", "boxed"]))
+            lo = draw(st.integers(-24, 8)) / 8.0
+            lb.append(lo if k in ("lower", "boxed") else -np.inf)
+            ub.append(lo + draw(st.integers(1, 32)) / 8.0 if k in ("upper", "boxed") else np.inf)
+        s = {"n": n, "m": 0, "Q": Q.tolist(), "q": [4.0 * v for v in dvec(draw, n)], "A": [], "b": [], "cl": [], "cu": [],
+             "lb": lb, "ub": ub, "fmt": draw(FMT), "family": "convexbox"}
+        return s
     elif fam == "concavebox":
         # concave objective on a box, no rows: minimisers sit in corners, Newton steps at a bound may point
         # out of the box although the bound is not active for the projection (1 + dt f'' < 0)
